@@ -193,7 +193,7 @@ func main() {
 	}
 
 	// ---- generated inputs x schedules ----
-	total := o.Count(800, 40000)
+	total := o.Count(800, 12000)
 	for c := 0; c < total && !e.hung; c++ {
 		v := e.variants[r.Pick(len(e.variants))]
 		gi := iox.GenInput2(r, v)
